@@ -34,6 +34,7 @@ class Contract:
         self.auto_inv = kw.pop("auto_inv", True)
         self.nonneg = kw.pop("nonneg", [])
         self.unchecked = kw.pop("unchecked", [])    # arrays whose index obligations are NOT generated (listed as unverified in the evidence)
+        self.store_asserts = kw.pop("store_asserts", {})   # array -> [spec exprs over the current state, `value` and `index`]: must hold at every store to that array
         self.sums = kw.pop("sums", {})              # name -> (bound var, n expr, term expr): prefix sums with a proved monotonicity lemma
         if kw:
             raise TypeError("unknown contract fields %s" % list(kw))
@@ -171,6 +172,9 @@ class Unit:
         self.ev.call_handler = self.handle_call
         self.ev.assume_store_fits = True
         self.ev.unchecked = set(self.c.unchecked)
+        if self.c.store_asserts:
+            self._orig_store = self.ev.store
+            self.ev.store = self._checked_store
         gh = spec.Ghosts()
         for g, (params, body) in self.c.ghost.items():
             gh.declare(g, params, body)
@@ -249,6 +253,18 @@ class Unit:
         step = z3.Implies(z3.And(0 <= a, a <= b, b < n, S(a) <= S(b), tb >= 0, S(b + 1) == S(b) + tb), S(a) <= S(b + 1))
         ev.oblige("L.step", z3.ForAll([a, b], step), st, "induction step of: %s is non-decreasing" % name)
         st.assume(z3.ForAll([a, b], z3.Implies(z3.And(0 <= a, a <= b, b <= n), S(a) <= S(b)), patterns=[z3.MultiPattern(S(a), S(b))]))
+
+    def _checked_store(self, arr, idx, v, st, src_ty=None):
+        for src in self.c.store_asserts.get(arr, []):
+            try:
+                val = sym.to_int(v) if v.k in ("int", "bool") else None
+                if val is None:
+                    continue
+                claim = self.se.boolean(src, st, init=self.init, bound={"value": val, "index": idx})
+                self.ev.oblige("F.store", claim, st, "at every store to %s: %s" % (arr, src), {"src": src})
+            except spec.SpecError as ex:
+                self.errors.append("contract error in store_asserts: %s" % ex)
+        return self._orig_store(arr, idx, v, st, src_ty)
 
     # ---- calls (modular: the callee's contract, never its body)
     def handle_call(self, ev, e, st):
